@@ -256,6 +256,11 @@ pub fn run(tier: Tier) -> i32 {
             e.condition.set_phoneme_alignment_flag(align);
             let r = catch(|| e.generator(&one[..]).map(|g| if i % 8 == 0 { g.generate_all().len() } else { 0 }));
             let rp = json!({"line": line, "alignment": align});
+            rep.outcome(match &r {
+                Ok(Ok(n)) => 2 + *n as u64,
+                Ok(Err(e)) => fnv(format!("{:?}", std::mem::discriminant(e)).as_bytes()),
+                Err(_) => 1,
+            });
             match r {
                 Err(p) => {
                     rep.violation(format!("panic@{}", site_of(&p)), format!("label line makes the engine panic: {}", p), rp);
